@@ -1,3 +1,3 @@
 From Coq Require Import NArith List Extraction ExtrOcamlBasic.
 From CMI Require Import Cxx.C08_Defs.
-Extraction "c08_model.ml" init step exec wf_choice mkConfig deps N.add N.mul N.div N.modulo N.of_nat N.to_nat.
+Extraction "c08_model.ml" init step exec wf_choice qexec qpre_b mkConfig deps N.add N.mul N.div N.modulo N.of_nat N.to_nat.
